@@ -189,7 +189,8 @@ fn small_case(i: u64, limit: u64) -> Option<FmtCase> {
     Some(FmtCase { d: D::new(val.to_string(), scale), kind, prec: Some(n), fill_align: fa, plus: i % 2 == 1, zero: (i / 2) % 3 == 0, width: (i % 19) as u16 })
 }
 
-const TAIL_SHAPES: &[u8] = &[0, 1, 5, 6, 7, 8, 10, 2, 4, 14, 14];
+// tail families plus machine-word structured digits (boundary 32-bit words, 2^k + d, all-ones limbs)
+const TAIL_SHAPES: &[u8] = &[0, 1, 5, 6, 7, 8, 10, 2, 4, 14, 14, 9, 12, 13];
 
 fn fmt_strategy(max_len: usize) -> BoxedStrategy<FmtCase> {
     let scale = prop_oneof![5 => -20i64..=60, 2 => -1100i64..=400, 1 => -30i64..=-1];
